@@ -37,7 +37,7 @@ package ggql
 //@ spec asSel(s Selection) Selection = s
 //@ axiom dirsOfField(f *Field): asSel(box(f)).Directives() == f.Dirs
 //@ func (*Root).skipSel
-//@   props C09
+//@   props C09 C01
 //@   check panic {C03}
 //@   requires sel != nil && ptrval(sel) != 0
 //@   ensures[formula] skip <==> skippedUpTo(sel.Directives(), vars, len(sel.Directives()))
@@ -715,14 +715,18 @@ package ggql
 //@ interface AnyResolver.Len
 //@   pure
 //@   requires[list-resolver-first]{C02} !is(list, ListResolver)
+//@   requires[builtin-lists-first]{C02,C17} !builtinList(list)
 //@ interface AnyResolver.Nth
 //@   requires[list-resolver-first]{C02} !is(list, ListResolver)
+//@   requires[builtin-lists-first]{C02,C17} !builtinList(list)
 //@   results res, err
 //@   -- documented: "If not a list or out of bounds nil should be returned along with an error" (assumed of the application)
 //@   ensures[nil-with-error] err != nil ==> res == nil
 //@   ghost #res += 1
 //@   assigns fresh
 
+//@ -- list kinds the library resolves itself (documented in implementation.md): they never reach the application's Len / Nth
+//@ spec builtinList(l interface{}) bool = is(l, []interface{}) || is(l, []string) || is(l, []int) || is(l, []int64) || is(l, []bool) || is(l, []float32) || is(l, []float64) || is(l, []time.Time)
 //@ spec isMetaName(n string) bool = n == "__typename" || n == "__type" || n == "__schema"
 
 //@ func (*Root).GetType
@@ -947,7 +951,7 @@ package ggql
 //@   ensures[errs-fresh]{C06} errsFresh(ea)
 //@   ensures[null-depth]{C01} (depth <= 0 || isnilv(obj)) ==> result == obj && len(ea) == 0 && #res == old(#res)
 //@   ensures[leaf-conforms]{C05} depth > 0 && !isnilv(obj) && !is(t, *List) && !is(t, *Object) && !is(t, *Schema) && !is(t, *Interface) && !is(t, *uuSchema) && !is(t, *NonNull) && !is(t, *Union) && is(t, OutCoercer) && len(ea) == 0 ==> conformsOut(result, t)
-//@   ensures[nonnull-leaf-conforms]{C05} depth > 0 && !isnilv(obj) && is(t, *NonNull) && as(t, *NonNull) != nil && isLeafT(as(t, *NonNull).Base) && len(ea) == 0 ==> conformsOut(result, as(t, *NonNull).Base)
+//@   ensures[nonnull-leaf-conforms]{C05,C01} depth > 0 && !isnilv(obj) && is(t, *NonNull) && as(t, *NonNull) != nil && isLeafT(as(t, *NonNull).Base) && len(ea) == 0 ==> conformsOut(result, as(t, *NonNull).Base)
 //@   ensures[leaf-error-null]{C05} depth > 0 && !isnilv(obj) && !is(t, *List) && !is(t, *Object) && !is(t, *Schema) && !is(t, *Interface) && !is(t, *uuSchema) && !is(t, *NonNull) && !is(t, *Union) && len(ea) > 0 ==> result == nil
 //@   assigns fresh, H_Field.ConType, H_Object.meta, H_FieldDef.goField, H_FieldDef.method, H_FieldDef.args, held, #res
 //@   ensures[locks-balanced]{C12,C20} held == old(held)
